@@ -221,7 +221,15 @@ def execute(case: dict) -> dict:
                 if rq.get("compress") and body_kind not in ("none", "form", "multipart"):
                     kwargs["compress"] = rq["compress"]
                 if rq.get("expect100") and body_kind != "none":
-                    kwargs["expect100"] = True
+                    if rq.get("expect_hdr"):
+                        # the other spelling: the caller sets the header itself (field values are case-insensitive here)
+                        kwargs["headers"] = kwargs["headers"] + [("Expect", rq["expect_hdr"])]
+                    else:
+                        kwargs["expect100"] = True
+                if rq.get("via_proxy"):
+                    # an HTTP proxy for an http:// URL: the request line carries the absolute URL (the in-memory peer is the
+                    # aiohttp server itself, which accepts absolute-form)
+                    kwargs["proxy"] = "http://proxy.example:3128"
                 stats["body"] = (body_kind != "none" and n > 0) or rs.get("size", 0) > 0
 
                 resp = await session.request(rq["method"], url, **kwargs)
@@ -311,7 +319,7 @@ def execute(case: dict) -> dict:
                                     f"(client transport open={client_open}; request {rq['method']} http10={rq.get('http10')}, response {rs['status']} {rs['kind']} "
                                     f"force_close={rs.get('force_close')}; response headers {got_headers})")
                 # ---- follow-up request: reuse iff both kept the connection
-                r2 = await session.get("http://example.com/x/second")
+                r2 = await session.get("http://example.com/x/second", **({"proxy": kwargs["proxy"]} if "proxy" in kwargs else {}))
                 t2 = await r2.text()
                 r2.release()
                 if r2.status != 200 or t2 != "second":
@@ -425,7 +433,7 @@ def cases(draw):
     rq = {
         "method": method, "path": path, "body": body_kind, "size": size if body_kind != "none" else 0,
         "headers": draw(st.lists(st.tuples(st.sampled_from(HDR_NAMES), st.sampled_from(HDR_VALUES)), max_size=3)),
-        "params": draw(st.lists(st.tuples(st.sampled_from(["k", "k2", "é"]), st.sampled_from(["1", "a b", "", "x&y"])), max_size=3)),
+        "params": draw(st.lists(st.tuples(st.sampled_from(["k", "k2", "é"]), st.sampled_from(["1", "a b", "", "x&y", "a+b", "#1", "50%", "a/b", "é"])), max_size=3)),
         "cookies": draw(st.sampled_from([[], [], [("c1", "v1")], [("c1", "v1"), ("c2", "a b")]])),
         "chunked": draw(st.booleans()), "compress": draw(st.sampled_from([None, None, "deflate", "gzip"])),
         "expect100": draw(st.integers(0, 4)) == 0, "http10": draw(st.integers(0, 4)) == 0,
@@ -436,6 +444,9 @@ def cases(draw):
         if body_kind == "agen":
             rq["body"] = "bytes"
     rq["chunked_false"] = (not rq["chunked"]) and draw(st.integers(0, 3)) == 0
+    if rq["expect100"]:
+        rq["expect_hdr"] = draw(st.sampled_from([None, None, "100-continue", "100-Continue", "100-CONTINUE"]))
+    rq["via_proxy"] = draw(st.integers(0, 5)) == 0
     if body_kind not in ("none", "form", "multipart"):
         rq["handler_reads"] = draw(st.sampled_from(["all", "all", "all", "none", "some"]))
     if rq["chunked"] and rq["compress"]:
